@@ -25,11 +25,12 @@ let gop_of_char = function 's' -> C19_FinOk | 'f' -> C19_FinFail | 't' -> C19_Th
 let char_of_gop = function C19_FinOk -> 's' | C19_FinFail -> 'f' | C19_Throw -> 't' | C19_React -> 'r'
 let outcome_of_char = function 'o' -> C19_Ok | 't' -> C19_Throws | 'f' -> C19_ReportsFailure | c -> failwith (Printf.sprintf "outcome %c" c)
 let script_of_string s = if s = "-" then [] else List.map gop_of_char (chars s)
-let exit_str = function
+(* gr = rank of the process inside the guard's communicator (printed in the MPIGuardError message) *)
+let exit_str gr = function
   | C19_Normal -> "N"
-  | C19_GuardError (pc, ne) -> Printf.sprintf "G%de%d" (int_of_nat pc) (int_of_nat ne)
+  | C19_GuardError (pc, ne) -> Printf.sprintf "G%de%dr%d" (int_of_nat pc) (int_of_nat ne) gr
   | C19_UserExc pc -> Printf.sprintf "U%d" (int_of_nat pc)
-let obs_str (e, n) = (match e with Some e -> exit_str e | None -> "STUCK") ^ ":" ^ string_of_int (int_of_nat n)
+let obs_str gr (e, n) = (match e with Some e -> exit_str gr e | None -> "STUCK") ^ ":" ^ string_of_int (int_of_nat n)
 
 let guard_case t =
   let p = int_of_string t.(1) and act = t.(3) = "1" and colors = Array.of_list (chars t.(4)) and mode = t.(5) in
@@ -46,33 +47,38 @@ let guard_case t =
         List.iter2 (fun o s -> if c19_script act o <> s then failwith "SCRIPT-MISMATCH") os sc;
         let nsec = (match os with o :: _ -> List.length o | [] -> 0) in
         List.iteri (fun i r -> let (e, n) = c19_spec_exit act (nat_of_int nsec) os (nat_of_int i) in
-                     spec.(r) <- obs_str (Some e, n)) members;
+                     spec.(r) <- obs_str i (Some e, n)) members;
         c19_sections_run act os
       end else c19_guard_scope act sc in
     (match r with
-     | C19_Finished l | C19_Deadlock l -> List.iter2 (fun r o -> res.(r) <- obs_str o) members l
+     | C19_Finished l | C19_Deadlock l -> List.iteri (fun i (r, o) -> res.(r) <- obs_str i o) (List.combine members l)
      | C19_OutOfFuel -> List.iter (fun r -> res.(r) <- "OUTOFFUEL") members)) cols;
   String.concat "|" (Array.to_list res) ^ " ## " ^ (if mode = "S" then String.concat "|" (Array.to_list spec) else "-")
 
 (* ---------------------------------------------------------------- futures *)
-let fop_of_char = function 'v' -> C19_Valid | 'r' -> C19_Ready | 'w' -> C19_Wait | 'g' -> C19_Get | 'm' -> C19_Move | c -> failwith (Printf.sprintf "fop %c" c)
+let fop_of_char = function 'v' -> C19_Valid | 'r' -> C19_Ready | 'w' -> C19_Wait | 'g' -> C19_Get | 'm' -> C19_Move
+  | 'a' -> C19_MoveAssign | 'd' -> C19_SendData | c -> failwith (Printf.sprintf "fop %c" c)
 let nbop_of_string = function
   | "isend" -> C19_Isend | "irecv" -> C19_Irecv | "ibcast" -> C19_Ibcast | "igather" -> C19_Igather | "iscatter" -> C19_Iscatter
-  | "iallgather" -> C19_Iallgather | "iallreduce" -> C19_Iallreduce | "ibarrier" | "default" | "efuture" -> C19_Ibarrier | s -> failwith ("nbop " ^ s)
-let data_str (l : n list) = "[" ^ String.concat "," (List.map (fun x -> string_of_int (int_of_n x)) l) ^ "]"
-let item_str = function
+  | "iallgather" -> C19_Iallgather | "iallreduce" | "iallreduce1" -> C19_Iallreduce | "ibarrier" | "default" | "efuture" | "mkvalid" -> C19_Ibarrier | s -> failwith ("nbop " ^ s)
+let data_str (l : n list) =
+  if List.length l > 16 then Printf.sprintf "[n=%d;sum=%d]" (List.length l) (List.fold_left (fun a x -> a + int_of_n x) 0 l)
+  else "[" ^ String.concat "," (List.map (fun x -> string_of_int (int_of_n x)) l) ^ "]"
+(* sv = the send data of this rank (what get_send_data must return) *)
+let item_str sv = function
   | C19_TEnable -> ""
   | C19_TOp (o, r) ->
-    let c = (match o with C19_Valid -> "v" | C19_Ready -> "r" | C19_Wait -> "w" | C19_Get -> "g" | C19_Move -> "m") in
-    c ^ (match r with C19_RBool true -> "1" | C19_RBool false -> "0" | C19_RUnit -> "." | C19_RData d -> d | C19_RInvalid -> "X")
-let trace_str tr = String.concat " " (List.filter (fun s -> s <> "") (List.map item_str tr))
-let parse_item s =
+    let c = (match o with C19_Valid -> "v" | C19_Ready -> "r" | C19_Wait -> "w" | C19_Get -> "g" | C19_Move -> "m" | C19_MoveAssign -> "a" | C19_SendData -> "d") in
+    c ^ (match r with C19_RBool true -> "1" | C19_RBool false -> "0" | C19_RUnit -> "." | C19_RData d -> d | C19_RSent -> sv | C19_RInvalid -> "X")
+let trace_str sv tr = String.concat " " (List.filter (fun s -> s <> "") (List.map (item_str sv) tr))
+let parse_item sv s =
   if String.length s < 2 then None else
-  let o = (match s.[0] with 'v' -> Some C19_Valid | 'r' -> Some C19_Ready | 'w' -> Some C19_Wait | 'g' -> Some C19_Get | 'm' -> Some C19_Move | _ -> None) in
+  let o = (match s.[0] with 'v' -> Some C19_Valid | 'r' -> Some C19_Ready | 'w' -> Some C19_Wait | 'g' -> Some C19_Get | 'm' -> Some C19_Move
+                          | 'a' -> Some C19_MoveAssign | 'd' -> Some C19_SendData | _ -> None) in
   let rest = String.sub s 1 (String.length s - 1) in
   match o with None -> None | Some o ->
     let r = (match rest with "1" -> Some (C19_RBool true) | "0" -> Some (C19_RBool false) | "." -> Some C19_RUnit | "X" -> Some C19_RInvalid
-                           | _ -> if rest.[0] = '[' then Some (C19_RData rest) else None) in
+                           | _ -> if rest.[0] = '[' then Some (if o = C19_SendData && rest = sv then C19_RSent else C19_RData rest) else None) in
     (match r with None -> None | Some r -> Some (C19_TOp (o, r)))
 let rec take n l = if n = 0 then [] else match l with [] -> [] | x :: r -> x :: take (n - 1) r
 let rec drop n l = if n = 0 then l else match l with [] -> [] | _ :: r -> drop (n - 1) r
@@ -82,9 +88,12 @@ let future_case t impl_line =
   and late = int_of_string t.(7) and dep = t.(8) and order = chars t.(9) in
   let ops = List.map fop_of_char order in
   let nops = List.length ops in
-  let len = (match pay with "i" | "j" -> 1 | "v" | "w" -> 3 | _ -> 0) in
-  let kind = (match pay with "i" | "v" -> C19_BValue | "j" | "w" -> C19_BRef | _ -> C19_BVoid) in
-  let rec prefix = function ('w' | 'g') :: _ -> 0 | _ :: r -> 1 + prefix r | [] -> 0 in
+  let len = (match pay with "i" | "j" -> 1 | "v" | "w" | "q" | "F" -> 3 | "L" -> 3000 | _ -> 0) in
+  let kind = (match pay with "i" | "v" | "q" | "F" | "L" -> C19_BValue | "j" | "w" -> C19_BRef | _ -> C19_BVoid) in
+  (* type-erased Dune::Future<R> owns the MPIFuture through a unique_ptr: moving it always empties the source *)
+  let kind = if t.(5) = "e" then C19_BValue else kind in
+  let rec prefix = function ('w' | 'g' | 'd') :: _ -> 0 | _ :: r -> 1 + prefix r | [] -> 0 in
+  let start_exc = (fam = "N" && (op = "isend" || op = "irecv")) || pay = "z" in
   let k = prefix order in
   let impl_ranks = (match impl_line with Some l -> Array.of_list (List.map String.trim (split '|' l)) | None -> [||]) in
   let per_rank r =
@@ -95,20 +104,27 @@ let future_case t impl_line =
     let world q = if fam = "M" then q else r in
     let ins = List.init pe (fun q -> if op = "iscatter" then (if q = root then mk (world q) (pe * len) else []) else mk (world q) len) in
     let outs = List.init pe (fun q -> [n_of_int (9000 + world q)]) in
-    let v = data_str (c19_spec_data (nbop_of_string op) (nat_of_int pe) (nat_of_int root) (nat_of_int re) ins outs) in
+    let v = if op = "mkvalid" then (if pay = "i" then "[0]" else "[]")
+            else data_str (c19_spec_data (nbop_of_string op) (nat_of_int pe) (nat_of_int root) (nat_of_int re) ins outs) in
+    let sv = data_str (List.nth ins re) in
     let is_dep = late >= 0 && r < String.length dep && dep.[r] = '1' in
     let traces =
       if op = "efuture" then [c19_ptrace ops { c19_pvalid = false; c19_pdata = v }]   (* empty Dune::Future<T>: every call but valid() throws *)
       else if fam = "N" then [c19_ptrace ops { c19_pvalid = (op <> "default"); c19_pdata = v }]
       else if op = "default" then [c19_ftrace c19_cfg_fixed kind v (List.map (fun o -> C19_EvOp o) ops) c19_fut_default]
+      else if op = "mkvalid" then [c19_ftrace c19_cfg_fixed kind v (List.map (fun o -> C19_EvOp o) ops) (c19_fut_prevalid v)]
       else List.filter_map (fun c -> if is_dep && c < k then None
                              else Some (c19_ftrace c19_cfg_fixed kind v (c19_history ops (nat_of_int c)) (c19_fut_started "[stale]")))
              (List.init (nops + 2) (fun c -> c)) in
-    let set = List.sort_uniq compare (List.map trace_str traces) in
+    (* type-erased wrapper around a PseudoFuture: the wrapper (unique_ptr) is what is moved, its source is emptied *)
+    let traces = if t.(5) = "e" then List.map (List.map (function C19_TOp ((C19_Move | C19_MoveAssign) as o, C19_RBool _) -> C19_TOp (o, C19_RBool false) | x -> x)) traces else traces in
+    let set = if start_exc then ["START-EXC(ParallelError)"] else List.sort_uniq compare (List.map (trace_str sv) traces) in
     let verdict =
-      if r >= Array.length impl_ranks then None else begin
+      if r >= Array.length impl_ranks then None
+      else if start_exc then (if impl_ranks.(r) = "START-EXC(ParallelError)" then None else Some (Printf.sprintf "REJECT r%d fresh item0 start (ParallelError expected)" r))
+      else begin
         let toks = List.filter (fun s -> s <> "") (split ' ' impl_ranks.(r)) in
-        let items = List.map parse_item toks in
+        let items = List.map (parse_item sv) toks in
         if List.exists (fun x -> x = None) items || List.length items <> nops then Some (Printf.sprintf "REJECT r%d unparsable-or-incomplete" r) else begin
           let items = List.map (function Some x -> x | None -> assert false) items in
           let en = if fam = "M" && is_dep then k else 0 in
@@ -120,7 +136,7 @@ let future_case t impl_line =
             let rec first i = if i > n then n else if not (acc (take i tr)) then i else first (i + 1) in
             let i = first 1 in
             let taken = List.exists (function C19_TOp (_, C19_RData _) -> true | _ -> false) (take (i - 1) tr) in
-            Some (Printf.sprintf "REJECT r%d %s item%d %s (delivered data %s)" r (if taken then "after-get" else "fresh") (i - 1) (item_str (List.nth tr (i - 1))) v)
+            Some (Printf.sprintf "REJECT r%d %s item%d %s (delivered data %s)" r (if taken then "after-get" else "fresh") (i - 1) (item_str sv (List.nth tr (i - 1))) v)
           end
         end
       end in
